@@ -27,9 +27,10 @@ SHARD_SIZE = 40
 PARALLEL = True
 CASE_TIMEOUT = 60
 EXHAUSTIVE = {"quick": False, "thorough": False}
-RULE = ("systematic family: all six methods x shared on/off x every variables.mask for V <= 4 (single sampler), plus the same "
-        "masks expressed as gradient.samplers assignments with -1; random family: 1-3 sampler configurations of random methods, "
-        "random assignment arrays (incl. -1 and samplers left without variables), random variables.mask, R <= 5, P <= 8, V <= 6, "
+RULE = ("systematic family: all six methods x shared on/off x every variables.mask for V <= 4 (single sampler), half of them "
+        "expressed as gradient.samplers assignments with -1; random family: 1-3 sampler configurations of random methods, "
+        "random assignment arrays (incl. -1 and samplers left without variables), random variables.mask, R <= 5, P <= 8, V <= 6 "
+        "(170 cases quick / 8000 thorough; thorough also enumerates the masks of V = 5), "
         "method spellings ('scipy/Sobol', 'default'), user options for a minority of samplers, int and tuple seeds; every sampler "
         "is called three times in a (shuffled) round-robin schedule. Non-trivial = at least one call returned an array with a "
         "non-zero entry and R*P >= 2; distinct = distinct case dictionaries.")
@@ -63,7 +64,6 @@ USER_OPTIONS = {
     "halton": [{"scramble": False}],
     "lhs": [{"scramble": False}],
 }
-KNOWN_QMC_EMPTY = "C17:qmc-empty-mask"
 
 
 def canonical_method(name: str) -> str:
@@ -105,18 +105,10 @@ def handled_mask(case, k):
     return [(vm is None or bool(vm[v])) and (asg is None or asg[v] == k) for v in range(V)]
 
 
-def in_known_region(case):
-    """A QMC sampler that handles no variable at all is called (F17b)."""
-    for k in set(case["schedule"]):
-        if canonical_method(case["samplers"][k]["method"]) in QMC and not any(handled_mask(case, k)):
-            return True
-    return False
-
-
 def gen_cases(tier, rng):
     thorough = tier != "quick"
     # -- systematic: every mask for V <= 4, every method, shared on/off, as variables.mask and as assignment
-    for V in range(1, 5):
+    for V in range(1, 6 if thorough else 5):
         for mask in itertools.product([True, False], repeat=V):
             for method in METHODS:
                 for shared in (False, True):
@@ -131,12 +123,12 @@ def gen_cases(tier, rng):
                     else:
                         yield {**base, "varmask": list(mask), "assign": None}
     # -- random multi-sampler configurations
-    n = 2500 if thorough else 170
+    n = 8000 if thorough else 170
     for i in range(n):
         yield random_case(rng, big=thorough and i % 4 == 0)
 
 
-def random_case(rng, big=False, avoid_known=True):
+def random_case(rng, big=False):
     for _ in range(50):
         R = rng.choice([1, 2, 2, 3, 3, 4, 5])
         P = rng.choice([1, 2, 3, 3, 4, 5, 6, 8])
@@ -153,8 +145,6 @@ def random_case(rng, big=False, avoid_known=True):
             assign = [rng.choice([-1] + list(range(K)) * 3) for _ in range(V)]
         case = {"R": R, "P": P, "V": V, "varmask": varmask, "assign": assign, "samplers": samplers,
                 "seed": _seed(rng), "schedule": _schedule(rng, K)}
-        if avoid_known and in_known_region(case):
-            continue
         return case
     raise RuntimeError("generator could not produce a case")
 
@@ -356,26 +346,16 @@ def _violations(case, obs):
     return out
 
 
-def _is_known(case, obs, viol):
-    clause, ci, detail = viol
-    return (clause == "returns-array" and detail["exception"] == "ValueError" and detail["method"] in QMC
-            and detail["handled"] == 0)
-
-
 def oracle(case, obs):
     vs = _violations(case, obs)
     if not vs:
         return None
-    unknown = [v for v in vs if not _is_known(case, obs, v)]
-    clause, ci, detail = (unknown or vs)[0]
+    clause, ci, detail = vs[0]
     return {"clause": clause, "call": ci, "detail": detail}
 
 
 def known_signature(case, obs, violation):
-    vs = _violations(case, obs)
-    if vs and all(_is_known(case, obs, v) for v in vs):
-        return KNOWN_QMC_EMPTY
-    return None
+    return None   # no known finding for C17 (F17 and F17b are repaired; reverting either must alarm)
 
 
 def nontrivial(case, obs):
@@ -422,7 +402,7 @@ def shrink(case):
 
 def search(rng, case):
     for _ in range(400):
-        yield random_case(rng, avoid_known=True)
+        yield random_case(rng)
     if case is not None:
         for _ in range(100):
             c = dict(case)
